@@ -1,6 +1,7 @@
 package main
 
 import (
+	"sync"
 	"fmt"
 	"os"
 	"go/types"
@@ -121,12 +122,27 @@ func resultVars(e *Env, sig *types.Signature, ret Val) *Env {
 
 var callSiteCounter = map[string]int{}
 
+// callee contracts relied on at call sites during this run (reported in the evidence file)
+var usedContracts = map[string]string{}
+var usedContractsMu sync.Mutex
+
 func (ex *Exec) applyContract(fr *Frame, fn *ssa.Function, ct *Contract, args []Val, st *State, call *ssa.Call) []Result {
 	params, ctx := ex.paramTVs(fn, args)
 	pre := st.Clone()
 	var errs []string
 	env := ex.envFor(fn, params, ctx, st, nil)
 	env = ex.bindLets(env, ct.Lets, &errs)
+	if ex.specMode == 0 {
+		kind := "contract"
+		if ct.Trusted {
+			kind = "trusted"
+		} else if ct.Pure {
+			kind = "pure"
+		}
+		usedContractsMu.Lock()
+		usedContracts[ct.Func] = kind
+		usedContractsMu.Unlock()
+	}
 	short := ct.Func
 	for _, rq := range ct.Requires {
 		c, err := env.EvalBool(rq.Expr)
